@@ -1,0 +1,22 @@
+// Copyright 2024 Contributors to the Veraison project.
+// SPDX-License-Identifier: Apache-2.0
+
+//go:build verif
+
+package psatoken
+
+import "fmt"
+
+// VerifProfileRegister returns a read-only snapshot of the global profile
+// register: registered name -> {dynamic type of the IProfile, JSON tag of the
+// profile field}. It exists only in builds with the "verif" tag and is used
+// by external runtime monitors.
+func VerifProfileRegister() map[string][2]string {
+	out := make(map[string][2]string, len(profilesRegister))
+
+	for name, entry := range profilesRegister {
+		out[name] = [2]string{fmt.Sprintf("%T", entry.Profile), entry.JSONTag}
+	}
+
+	return out
+}
